@@ -84,16 +84,19 @@ func runC19(w *World, c *Check) {
 		c.Missing("C19.zeroing", "pac.(*PACType).Unmarshal")
 	} else {
 		fa := NewFuncAn(w, fn)
-		cp := false
-		for _, ci := range fa.Calls(`copy`) {
-			if s := fa.RenderCall(ci); fa.M(`copy\(make\(\[\]byte, len\(b\)\), b\)`, s) {
-				cp = true
-			}
-		}
-		st := false
+		// the value stored is a fresh buffer (not b itself: the zeroing must not touch Data) whose
+		// placements are exactly the PAC bytes — make+copy, append to an empty slice, bytes.Clone …
+		cp, st := false, false
+		bname := substParams(fn, "b")
 		for _, s := range fa.storesTo(`recv\.ZeroSigData`) {
-			if fa.M(`make\(\[\]byte, len\(b\)\)`, fa.R.R(s.Val)) {
-				st = true
+			switch s.Val.(type) {
+			case *ssa.MakeSlice, *ssa.Call:
+			default:
+				continue
+			}
+			ps, total := fa.BufferPlaces(s.Val)
+			if fa.R.R(s.Val) != bname && len(ps) == 1 && ps[0].What == bname && ps[0].Off == "0" && total == "len("+bname+")" {
+				cp, st = true, true
 			}
 		}
 		c.Decide(cp && st, "C19.zeroing", FuncKey(fn), "starts-as-copy", w.Pos(fn.Pos()), "ZeroSigData starts as a full copy of the PAC bytes", "ZeroSigData is not make(len(b)) filled by copy(…, b)")
@@ -106,12 +109,13 @@ func runC19(w *World, c *Check) {
 			a    []string
 			site ssa.CallInstruction
 			ci   ssa.CallInstruction
+			in   *FuncAn
 		}
 		var zcs []zc
 		for _, dc := range fa.CallsDeep(`copy`) {
 			a := dc.fa.CallArgs(dc.ci)
 			if strings.HasPrefix(a[0], "recv.ZeroSigData[") {
-				zcs = append(zcs, zc{a, dc.site, dc.ci})
+				zcs = append(zcs, zc{a, dc.site, dc.ci, dc.fa})
 			}
 		}
 		for _, z := range zcs {
@@ -127,21 +131,33 @@ func runC19(w *World, c *Check) {
 		// facts at the place of the zeroing in this function (the call of the helper that holds the
 		// copy, when it was extracted)
 		for _, z := range zcs {
-			blk := z.site.Block()
-			if len(blk.Preds) == 0 {
-				continue
-			}
 			seenFirst := false
-			// walk up single-predecessor chains: the copy may sit a few straight-line blocks below the test
-			for _, f := range fa.factsOn(&Edge{blk.Preds[0], succIndex(blk.Preds[0], blk)}) {
-				if f.c.Kind == "eq" && f.holds && strings.HasSuffix(f.c.R, ".ULType") {
-					tab[f.c.L] = true
+			// the facts at the zeroing: at the call in this function through which it is reached and,
+			// when the copy lives in a helper, at the copy inside the helper (its parameters read
+			// as this function's arguments)
+			type place struct {
+				a   *FuncAn
+				blk *ssa.BasicBlock
+			}
+			places := []place{{fa, z.site.Block()}}
+			if z.in != nil && z.in.Fn != fa.Fn {
+				places = append(places, place{z.in, z.ci.Block()})
+			}
+			for _, pl := range places {
+				blk := pl.blk
+				if len(blk.Preds) == 0 {
+					continue
 				}
-				// only the first buffer of each signature type is zeroed (and used): a repeated buffer is
-				// skipped before anything is blanked, otherwise its bytes drop out of the signed data
-				if !seenFirst && f.c.Kind == "eq" && f.holds && ((f.c.L == "nil" && (f.c.R == "recv.ServerChecksum" || f.c.R == "recv.KDCChecksum")) || (f.c.R == "nil" && (f.c.L == "recv.ServerChecksum" || f.c.L == "recv.KDCChecksum"))) {
-					first++
-					seenFirst = true
+				for _, f := range pl.a.factsOn(&Edge{blk.Preds[0], succIndex(blk.Preds[0], blk)}) {
+					if f.c.Kind == "eq" && f.holds && strings.HasSuffix(f.c.R, ".ULType") {
+						tab[f.c.L] = true
+					}
+					// only the first buffer of each signature type is zeroed (and used): a repeated buffer is
+					// skipped before anything is blanked, otherwise its bytes drop out of the signed data
+					if !seenFirst && f.c.Kind == "eq" && f.holds && ((f.c.L == "nil" && (f.c.R == "recv.ServerChecksum" || f.c.R == "recv.KDCChecksum")) || (f.c.R == "nil" && (f.c.L == "recv.ServerChecksum" || f.c.L == "recv.KDCChecksum"))) {
+						first++
+						seenFirst = true
+					}
 				}
 			}
 		}
@@ -265,29 +281,43 @@ func runC19(w *World, c *Check) {
 			continue
 		}
 		fa := NewFuncAn(w, fn)
-		got := map[string]*ssa.Store{}
-		for _, st := range fa.storesTo(`local<credentials\.ADCredentials>(#\d+)?\.\w+`) {
-			a := fa.R.R(st.Addr)
-			got[a[strings.LastIndex(a, ".")+1:]] = st
+		// the structure may be filled in the function or in a helper extracted from it: the helper's
+		// stores are read with its parameters as the caller's arguments, and the path conditions
+		// apply to the call through which the helper is reached
+		type adStore struct {
+			st *ssa.Store
+			in *FuncAn
+		}
+		got := map[string]adStore{}
+		for _, sub := range fa.withNewHelpers() {
+			for _, st := range sub.storesTo(`local<credentials\.ADCredentials>(#\d+)?\.\w+`) {
+				a := sub.R.R(st.Addr)
+				got[a[strings.LastIndex(a, ".")+1:]] = adStore{st, sub}
+			}
 		}
 		isPAC := fa.MatchGuard(TruePass(site.okPat))
 		noErr := fa.MatchGuard(EqPass("nil", site.errPat))
 		for _, f := range sortedKeys(adCredRows) {
-			st := got[f]
+			g, has := got[f]
 			where := w.Pos(fn.Pos())
-			if st == nil {
+			if !has {
 				c.Fail("C19.report", site.fk, "ADCredentials."+f, where, "ADCredentials."+f+" is populated from the PAC", "no store to that field")
 				continue
 			}
+			st := g.st
 			where = w.Pos(InstrPos(st))
 			pat := strings.ReplaceAll(adCredRows[f], "PAC", site.pacT)
-			v := fa.R.R(st.Val)
+			v := g.in.R.R(st.Val)
 			good := fullMatch(pat, v)
 			detail := "value is " + trunc(v, 160)
+			var at ssa.Instruction = st
+			if g.in.Via != nil {
+				at = g.in.Via
+			}
 			if good {
-				if len(isPAC) == 0 || fa.PathToInstrAvoiding(isPAC, st) != nil {
+				if len(isPAC) == 0 || fa.PathToInstrAvoiding(isPAC, at) != nil {
 					good, detail = false, "populated on a path where no PAC was found"
-				} else if len(noErr) > 0 && fa.PathToInstrAvoiding(append(append([]Edge{}, noErr...), edgesComplement(fa, isPAC)...), st) != nil {
+				} else if len(noErr) > 0 && fa.PathToInstrAvoiding(append(append([]Edge{}, noErr...), edgesComplement(fa, isPAC)...), at) != nil {
 					good, detail = false, "populated on a path where PAC processing failed"
 				}
 			}
@@ -295,7 +325,7 @@ func runC19(w *World, c *Check) {
 		}
 		for f := range got {
 			if _, ok := adCredRows[f]; !ok {
-				c.Fail("C19.report", site.fk, "ADCredentials."+f, w.Pos(InstrPos(got[f])), "every populated ADCredentials field has a reference row", "field "+f+" is populated but unknown to the table")
+				c.Fail("C19.report", site.fk, "ADCredentials."+f, w.Pos(InstrPos(got[f].st)), "every populated ADCredentials field has a reference row", "field "+f+" is populated but unknown to the table")
 			}
 		}
 	}
